@@ -41,26 +41,30 @@
 #ifndef VP_BARCODE
 #define VP_BARCODE 1
 #endif
+#ifndef VP_MAPC
+#define VP_MAPC VP_REMOVABLE   // map column container (needed by remove_maximal_cell); 0 with removable columns = vector container, remove_last only
+#endif
 using namespace Gudhi::persistence_matrix;
 struct Opt : Default_options<Column_types::VP_COL, VP_Z2 != 0> {
   static const bool has_column_pairings = VP_BARCODE != 0; static const bool is_of_boundary_type = VP_FLAVOUR != 2;
   static const bool has_vine_update = VP_VINE != 0; static const bool can_retrieve_representative_cycles = VP_REP != 0;
   static const Column_indexation_types column_indexation_type = VP_IDX == 0 ? Column_indexation_types::CONTAINER : VP_IDX == 1 ? Column_indexation_types::POSITION : Column_indexation_types::IDENTIFIER;
   static const bool has_row_access = VP_ROWS != 0; static const bool has_intrusive_rows = VP_ROWS != 2; static const bool has_removable_rows = VP_ROWS != 0 && VP_REMOVABLE != 0;
-  static const bool has_removable_columns = VP_REMOVABLE != 0; static const bool has_map_column_container = VP_REMOVABLE != 0;
+  static const bool has_removable_columns = VP_REMOVABLE != 0; static const bool has_map_column_container = VP_MAPC != 0;
 };
 typedef Matrix<Opt> Mat;
 enum { M = VP_M, NSUB = 1 << VP_NV, MOD = VP_Z2 ? 2 : VP_P };
 static int cell[M];          // vertex-set mask of the cell at each position
 static int unit[M];          // scalar applied to the boundary of each cell (general cells; 1 = simplicial)
 static int ncell;            // current number of cells
+static bool zeroed[VP_M];    // VP_CW: general (non-simplicial) cell of dimension > 0 attached with a null boundary (a loop, a sphere): only for cells without cofaces
 static int pc(int m) { return __builtin_popcount(m); }
 static int inv_mod(int a) { a %= MOD; for (int x = 1; x < MOD; x++) if (a * x % MOD == 1) return x; return 0; }
 // dense boundary matrix of the current filtration: D[row][col], signs from the vertex order
 static void dense_boundary(int D[M][M], int n) {
   int pos[NSUB]; for (int s = 0; s < NSUB; s++) pos[s] = -1; for (int i = 0; i < n; i++) pos[cell[i]] = i;
   for (int i = 0; i < M; i++) for (int j = 0; j < M; j++) D[i][j] = 0;
-  for (int j = 0; j < n; j++) { int m = cell[j]; if (pc(m) < 2) continue; int k = 0;
+  for (int j = 0; j < n; j++) { int m = cell[j]; if (pc(m) < 2 || zeroed[j]) continue; int k = 0;
     for (int v = 0; v < VP_NV; v++) if (m >> v & 1) { int f = m & ~(1 << v); int sgn = (k & 1) ? MOD - 1 : 1; D[pos[f]][j] = (sgn * unit[j]) % MOD; k++; } }
 }
 // textbook left-to-right column reduction over Z_MOD. low[j] = pivot row or -1; pairOf[i] = partner or -1. Optionally returns R and U with R = D*U.
@@ -91,6 +95,10 @@ static void choose_filtration() {
     unit[i] = 1;
 #endif
   }
+  for (int i = 0; i < M; i++) zeroed[i] = false;
+#ifdef VP_CW
+  for (int i = 0; i < M; i++) if (pc(cell[i]) > 1) { zeroed[i] = vp_fork_int(vp_int("nullbd", 0, 1)) != 0; if (zeroed[i]) for (int q = 0; q < M; q++) if (q != i) vp_assume((cell[q] & cell[i]) != cell[i]); }
+#endif
 }
 #if VP_Z2
 typedef std::vector<unsigned> Bd;
